@@ -929,3 +929,48 @@ func H_C06_datafile() {
 	}
 	vAssert(err != nil, "a transfer that ends with the file incomplete is reported as failed")
 }
+
+// ---------------------------------------------------------------------------------------------
+// C15 (record sequences): after a well-formed header the control stream carries k well-formed records
+// in an arbitrary order - DataStreams (count 1 or 0), FileBegin, FileEnd and ResumeRequest for the
+// announced file or for a key nobody announced, End - and then ends; the data stream is empty. Every
+// record is legal by itself, the sequence need not be. The real receiver (goroutines as symbolic
+// threads) must come back - with an error or, for a complete sequence, success: no panic and nobody
+// left waiting for input that has ended.
+func H_C15_records()      { vC15Records(3) }
+func H_C15_records_deep() { vC15Records(4) }
+
+func vC15Records(k int) {
+	item := manifest.FileItem{RelPath: "f", Size: 0, ID: "id"}
+	m := manifest.Manifest{Items: []manifest.FileItem{item}, TotalBytes: 0, FileCount: 1}
+	key := fileKeyForItem(item)
+	control := &vMemStream{buf: vControlBytes(m)}
+	n := 1 + vChoice("recordsMinus1", k)
+	for i := 0; i < n; i++ {
+		switch vChoice("record", 8) {
+		case 0:
+			_ = writeDataStreams(control, DataStreams{Count: 1})
+		case 1:
+			_ = writeDataStreams(control, DataStreams{Count: 0})
+		case 2:
+			_ = writeFileBegin(control, FileBegin{RelPath: "f", FileSize: 0, ChunkSize: 4, StreamID: key, HashAlg: HashAlgCRC32C})
+		case 3:
+			_ = writeFileEnd(control, FileEnd{StreamID: key})
+		case 4:
+			_ = writeFileEnd(control, FileEnd{StreamID: key + 1})
+		case 5:
+			_ = writeResumeRequest(control, ResumeRequest{FileID: "id", StreamID: key})
+		case 6:
+			_ = writeResumeRequest(control, ResumeRequest{FileID: "id", StreamID: key + 1})
+		default:
+			_ = writeControlEnd(control)
+		}
+	}
+	conn := &vScriptConn{streams: []Stream{control, &vMemStream{}}}
+	_, err := RecvManifestMultiStream(vContext("ctx", false), conn, vTempDir()+"/out", Options{NoRootDir: true, Resume: vBool("resume")})
+	if err != nil {
+		vCover("C15 records: rejected")
+	} else {
+		vCover("C15 records: accepted")
+	}
+}
